@@ -72,6 +72,61 @@
 
 #define CONNECTION_UNLOCK(connection) _dbus_connection_unlock (connection)
 
+#ifdef FREEDESKTOP_DBUS_VERIF
+#include <pthread.h>
+#include <sched.h>
+#include <stdio.h>
+#include <stdlib.h>
+#include <unistd.h>
+
+/* verification hook H3: a delay point between critical sections.  With
+ * DBUS_VERIF_DELAY=<permille>:<max_us>:<seed> in the environment, a thread
+ * that has just released a connection's lock yields or sleeps for up to
+ * max_us microseconds with probability permille/1000, so that other threads
+ * get in between two critical sections more often than the scheduler alone
+ * would let them.  Without the variable this does nothing. */
+static pthread_once_t verif_delay_once = PTHREAD_ONCE_INIT;
+static unsigned int verif_delay_permille = 0;
+static unsigned int verif_delay_max_us = 0;
+static unsigned int verif_delay_seed = 0;
+
+static void
+verif_delay_init (void)
+{
+  const char *v = getenv ("DBUS_VERIF_DELAY");
+
+  if (v == NULL ||
+      sscanf (v, "%u:%u:%u", &verif_delay_permille, &verif_delay_max_us,
+              &verif_delay_seed) != 3)
+    verif_delay_permille = 0;
+}
+
+static void
+verif_delay_point (void)
+{
+  static __thread unsigned int rnd = 0;
+  unsigned int r;
+
+  pthread_once (&verif_delay_once, verif_delay_init);
+  if (verif_delay_permille == 0)
+    return;
+
+  if (rnd == 0)
+    rnd = (verif_delay_seed * 2654435761u) ^ (unsigned int) (size_t) &rnd ^ 0x9e3779b9u;
+  rnd ^= rnd << 13;
+  rnd ^= rnd >> 17;
+  rnd ^= rnd << 5;
+  r = rnd;
+
+  if (r % 1000 >= verif_delay_permille)
+    return;
+  if ((r >> 10) % 4 == 0 || verif_delay_max_us == 0)
+    sched_yield ();
+  else
+    usleep ((r >> 12) % (verif_delay_max_us + 1));
+}
+#endif
+
 #define SLOTS_LOCK(connection) do {                     \
     _dbus_rmutex_lock ((connection)->slot_mutex);       \
   } while (0)
@@ -423,6 +478,10 @@ _dbus_connection_unlock (DBusConnection *connection)
       dbus_message_unref (message);
       _dbus_list_free_link (iter);
     }
+
+#ifdef FREEDESKTOP_DBUS_VERIF
+  verif_delay_point ();
+#endif
 }
 
 /**
